@@ -3,6 +3,7 @@ package main
 import (
 	"fmt"
 	"math/rand"
+	"os"
 	"runtime"
 	"sort"
 	"strings"
@@ -329,6 +330,19 @@ func checkC11(r *evid.Run) {
 	// 4. forced schedules (gate): the orders that made the as-built design leak / return nil
 	forcedSchedules(r, pool)
 
+	// 4b. schedules SAMPLED BY TLC from the specification (-simulate), projected onto hook events and forced
+	//     on the real goroutines; every forced run is checked, a quarter of their traces validated
+	simCfgs, simNum := []string{"MC_Pipe_cancel_text.cfg", "MC_Pipe_reader_enc.cfg", "MC_Pipe_faults_mkdir.cfg", "MC_Pipe_root_walk.cfg"}, 30
+	if thorough {
+		simCfgs = nil
+		for _, s := range pipeSinks {
+			simCfgs = append(simCfgs, "MC_Pipe_cancel_"+s+".cfg", "MC_Pipe_reader_"+s+".cfg", "MC_Pipe_root_"+s+".cfg")
+		}
+		simCfgs = append(simCfgs, "MC_Pipe_faults_mkdir.cfg", "MC_Pipe_faults_verify.cfg", "MC_Pipe_faults3_mkdir.cfg", "MC_Pipe_cancel3_text.cfg")
+		simNum = 120
+	}
+	simulatedSchedules(r, pool, simCfgs, simNum)
+
 	// 5. unsynchronised access to shared memory: the same kind of calls under the Go race detector
 	raceCheck(r, raceRequests(thorough))
 	r.Assume("the Go race detector is the implementation-side monitor for 'never access shared memory without synchronisation'; it reports races that actually occur in the executions it observes")
@@ -361,6 +375,14 @@ func validateAndReport(r *evid.Run, pc *pipeCase, rq wproto.Req, rp wproto.Rep, 
 			next = fmt.Sprint(tr[v.HWM-1])
 		}
 		fmt.Printf("SPEC-DRIFT layer=pipeline sink=%s fates=%v prefix=%d/%d next=%s\n", pc.Sink, pc.Fates, v.HWM-1, len(tr), next)
+		if os.Getenv("VERIF_DEBUG") != "" {
+			for i, e := range tr {
+				if i < v.HWM+3 {
+					fmt.Println("   ", i+1, e)
+				}
+			}
+			fmt.Println(v.Output)
+		}
 	}
 }
 
